@@ -348,6 +348,18 @@ def _len_interval(r: Row, lm: ListenerModel):
         if n in (A, ("map", ("text", IT), A)):
             lo = max(lo, iv[0])
             hi = iv[1] if hi is None else (hi if iv[1] is None else min(hi, iv[1]))
+            continue
+        # len(args[k:]) in [a, b]  =>  len(args) in [a + k, b + k]   (a >= 1; for a == 0 only the upper bound transfers)
+        k = None
+        if n[0] == "slice" and n[1] in (A, ("map", ("text", IT), A)) and is_const(n[2]) and isinstance(n[2][1], int) and n[2][1] >= 0 and n[3] == NONE:
+            k = n[2][1]
+        elif n[0] == "map" and n[2][0] == "slice" and n[2][1] == A and is_const(n[2][2]) and isinstance(n[2][2][1], int) and n[2][3] == NONE:
+            k = n[2][2][1]
+        if k is not None:
+            if iv[0] >= 1:
+                lo = max(lo, iv[0] + k)
+            if iv[1] is not None:
+                hi = iv[1] + k if hi is None else min(hi, iv[1] + k)
     PARAMS = ("map", ("text", IT), A)
     for a, v in r.outcome.conds:
         if a[0] in ("nonempty", "truthy"):
@@ -364,6 +376,38 @@ def _len_interval(r: Row, lm: ListenerModel):
                     lo = max(lo, k + 1)
                 else:
                     hi = k if hi is None else min(hi, k)
+    # comparisons of len(args[k:]) with a constant that an interval cannot hold by itself (!=): refine the bounds they touch
+    for _ in range(2):
+        for a, v in r.outcome.conds:
+            if a[0] != "lencmp":
+                continue
+            n = nf.nf(a[1])
+            k = None
+            if n in (A, PARAMS):
+                k = 0
+            elif n[0] == "slice" and n[1] in (A, PARAMS) and is_const(n[2]) and isinstance(n[2][1], int) and n[2][1] >= 0 and n[3] == NONE:
+                k = n[2][1]
+            elif n[0] == "map" and n[2][0] == "slice" and n[2][1] == A and is_const(n[2][2]) and n[2][3] == NONE:
+                k = n[2][2][1]
+            if k is None or not isinstance(a[3], int):
+                continue
+            op, c = a[2], a[3] + k          # condition on len(args)
+            if not v:
+                op = {"==": "!=", "!=": "==", "<": ">=", "<=": ">", ">": "<=", ">=": "<"}.get(op, op)
+            if op == "!=" and lo == c:
+                lo = c + 1
+            elif op == "!=" and hi is not None and hi == c:
+                hi = c - 1
+            elif op == "==":
+                lo, hi = max(lo, c), c if hi is None else min(hi, c)
+            elif op == ">=":
+                lo = max(lo, c)
+            elif op == ">":
+                lo = max(lo, c + 1)
+            elif op == "<=":
+                hi = c if hi is None else min(hi, c)
+            elif op == "<":
+                hi = c - 1 if hi is None else min(hi, c - 1)
     return lo, hi
 
 
